@@ -46,7 +46,14 @@ Inductive appcase :=
 | CLineApp (max : nat) (delim : bytes) (t : list (bytes * (option nat * bool))) (ops : list (op N))
 | CLineAppFam (max : nat) (delim : bytes) (t : list (bytes * (option nat * bool))) (f : family) (s : bytes)
 | CIntApp (plen : nat) (max : N) (t : list (bytes * (bool * bool))) (ops : list (op N))
-| CIntAppFam (plen : nat) (max : N) (t : list (bytes * (bool * bool))) (f : family) (s : bytes).
+| CIntAppFam (plen : nat) (max : N) (t : list (bytes * (bool * bool))) (f : family) (s : bytes)
+(* the sending side: sendLine / sendString of each message on one connection, then everything written, cut in the middle,
+   is given to a receiver of the same class *)
+| CSendLine (only : bool) (max : nat) (delim : bytes) (ls : list bytes)
+| CSendInt (plen : nat) (max : N) (ss : list bytes)
+| CSendNs (max : N) (ss : list bytes).
+
+Definition halves (w : bytes) : list bytes := [firstn (Nat.div2 (List.length w)) w; skipn (Nat.div2 (List.length w)) w].
 
 Definition run_app (c : appcase) : string :=
   match c with
@@ -60,6 +67,16 @@ Definition run_app (c : appcase) : string :=
   | CIntAppFam plen max t f s =>
       summary (map (fun cs => show_app (run_ops (ia_pfeed plen max (switch_table t) (pause_table t)) ia_pinit (map (@Data N) cs)))
                    (enumerate f s))
+  | CSendLine only max delim ls =>
+      let w := List.concat (map (send_line delim) ls) in
+      "W:" ++ show_hex w ++ " => " ++ show_result (run (if only then lo_feed max delim else lr_feed max delim) init (halves w))
+  | CSendInt plen max ss =>
+      let calls := map (fun s => match intn_send plen s with Some _ => "OK" | None => "ERR" end) ss in
+      let w := List.concat (map (fun s => match intn_send plen s with Some b => b | None => [] end) ss) in
+      String.concat "," calls ++ " W:" ++ show_hex w ++ " => " ++ show_result (run (intn_feed plen max) init (halves w))
+  | CSendNs max ss =>
+      let w := List.concat (map ns_send ss) in
+      "W:" ++ show_hex w ++ " => " ++ show_result (run (ns_feed max) init (halves w))
   end.
 
 Definition run_any (c : (case + ((list bytes -> case) * family * bytes)) + appcase) : string :=
